@@ -6,7 +6,7 @@ prop=$1; k=$2; tier=${3:-quick}
 src=/tmp/sa-out/${SEEDDIR:-$prop}/$k
 export GOFLAGS=-mod=mod GOPROXY=off GOSUMDB=off GOTOOLCHAIN=local
 d=/tmp/seed-$prop-$k-$$
-git -C /repo worktree add -q --detach $d HEAD || exit 9
+git -C /repo worktree add -q --detach $d ${SEEDBASE:-HEAD} || exit 9
 cleanup() { git -C /repo worktree remove --force $d 2>/dev/null; tag=$(python3 -c "import hashlib;print(hashlib.sha1('$d'.encode()).hexdigest()[:8])"); rm -f /verif/.build/go.$tag.mod /verif/.build/go.$tag.sum /verif/.build/props.test.go.$tag.mod /verif/.build/props.race.test.go.$tag.mod; }
 trap cleanup EXIT
 demo_dir=$(python3 -c "import json;print(json.load(open('$src/meta.json')).get('demo_dir',''))")
